@@ -30,7 +30,9 @@ PARTIAL = ['"equals the MVN density / CDF": scipy.stats.multivariate_normal.pdf/
            'The closed form exp(-q/2)/sqrt((2pi)^d det) is the executable Cholesky model: proved positive whenever the '
            'factorisation succeeds (mvn_pdf_pos), equal to exp of the log form (mvn_pdf_eq_exp_log), compared with the real '
            'probability_density on the real scores every run (d <= 6, cond <= 1e9); that the factorisation succeeds for every '
-           'positive definite matrix is proved for d <= 2 only (mvn_pdf_defined_partial), and L L^T = Sigma is not proved',
+           'symmetric positive definite matrix of every dimension, with L lower triangular, positive diagonal and '
+           'L L^T = Sigma, is proved in Props/C13b (cholesky_defined, mvn_pdf_defined); NOT proved: that maha L z equals '
+           'z^T Sigma^-1 z, i.e. that the Cholesky form is the textbook N(0, Sigma) density',
            'cdf_range / cdf_mono_coord are proved GIVEN MVNCDFSpec and monotone marginal CDFs (MonoExt); scipy computes the CDF '
            'by randomised quasi-Monte-Carlo (noise ~1e-5), so the real values are only checked to 1e-3 on well-separated points',
            'floating point: theorems are about symbolic plans / the reals; binary64 effects (e.g. the last-bit difference of a '
